@@ -429,7 +429,9 @@ def run_stream(ctx, binp, name, test, n):
         ops = open(opsp).read().splitlines() if os.path.exists(opsp) else []
         impl = open(implp).read().splitlines() if os.path.exists(implp) else []
         for l in out.splitlines():
-            if l.startswith("E7-"):
+            if l.startswith("E7-UNSORTED "):
+                ctx.violation("order:" + l.split()[1], "a list of the " + l[12:], "harness line: %s\n" % l)
+            elif l.startswith("E7-"):
                 ctx.corr.setdefault("distribution", []).append(l)
         if rc == 0:
             ops_all += ops
